@@ -101,6 +101,44 @@ pub fn check(v: &View, vd: &mut Verdict) {
                 vd.fail("C13/message_starved_by_items", format!("actor {a}: message {} was at the head of the mailbox from {from} on, but {items_between} stream items in a row were handled before it at {}", o.msg.unwrap(), inv.enter));
             }
         }
+        // ... and neither is an accepted stop request: from the moment it is in the mailbox the mailbox
+        // arm of the select is ready in every round until the loop is left
+        {
+            let mut since = u64::MAX;
+            for &i in &av.stop_reqs {
+                let o = &v.ops[i];
+                let s = match o.what {
+                    OpWhat::Stop | OpWhat::TryStop if o.ok() => o.end.unwrap_or(u64::MAX),
+                    OpWhat::Halt | OpWhat::TryHalt | OpWhat::Consume | OpWhat::ConsumeSync if o.was_pending || o.ok() => o.begin + 2,
+                    _ => u64::MAX,
+                };
+                since = since.min(s);
+            }
+            for e in v.hist {
+                if let EvKind::CtxOp { actor, op: CtxOpKind::Stop, ok: true, .. } = &e.kind {
+                    if *actor == a {
+                        since = since.min(e.stamp);
+                    }
+                }
+            }
+            if since != u64::MAX {
+                let mut run = 0usize;
+                let mut worst = 0usize;
+                let mut mine: Vec<&InvRec> = v.invs.iter().filter(|i| i.actor == a && i.enter > since).collect();
+                mine.sort_by_key(|i| i.enter);
+                for i in mine {
+                    if matches!(i.msg, MsgRef::Item(_)) {
+                        run += 1;
+                        worst = worst.max(run);
+                    } else {
+                        run = 0;
+                    }
+                }
+                if worst >= 48 {
+                    vd.fail("C13/stop_starved_by_items", format!("actor {a}: a stop request was in the mailbox from {since} on, yet {worst} stream items in a row were handled afterwards before the loop looked at the mailbox"));
+                }
+            }
+        }
         // classes
         let msgs = v.invs.iter().any(|i| i.actor == a && matches!(i.msg, MsgRef::Client(_)));
         if !handled.is_empty() && msgs {
